@@ -3729,8 +3729,12 @@ class TLSConnection(TLSRecordLayer):
         # negotiate the protocol version for the connection
         high_ver = None
         if ver_ext:
-            high_ver = getFirstMatching(settings.versions,
-                                        ver_ext.versions)
+            # settings.versions may list versions outside of the configured
+            # range, those must not be negotiated
+            high_ver = getFirstMatching(
+                [i for i in settings.versions
+                 if settings.minVersion <= i <= settings.maxVersion],
+                ver_ext.versions)
             if not high_ver:
                 for result in self._sendError(
                         AlertDescription.protocol_version,
@@ -3753,6 +3757,13 @@ class TLSConnection(TLSRecordLayer):
             #Set the version to the client's version
             self.version = min(clientHello.client_version, (3, 3))
             version = self.version
+
+        if version < settings.minVersion:
+            # e.g. legacy_version above TLS 1.2 without supported_versions
+            for result in self._sendError(
+                    AlertDescription.protocol_version,
+                    "Too old version: {0}".format(version)):
+                yield result
 
         #Detect if the client performed an inappropriate fallback.
         if version < settings.maxVersion and \
